@@ -67,8 +67,168 @@ fn judge(r: &mut Report, flavour: &str, stream: &[&MutableItem], got: Result<Opt
     r.count(&format!("{flavour}_streams"));
 }
 
+/// End to end: a real client node looks the key up among scripted replicas that hold genuine items of
+/// different seq / conflicting values at one seq, answer after chosen delays (arrival order), answer with a
+/// reply of another shape (peers-shaped, value-only, nodes-only, an error) or stay silent (which keeps the
+/// lookup open until the request times out). A first caller and callers that join the running lookup later
+/// (they are handed the responses so far, then the live ones) all call get_mutable_most_recent. Every genuine
+/// item is delivered well inside the request timeout, so each caller must get the newest of all of them.
+pub fn lookup_scenario(r: &mut Report, seed: u64) {
+    use crate::bencode::B;
+    use crate::krpc::*;
+    use crate::simnet::*;
+    use std::net::{Ipv4Addr, SocketAddrV4};
+    r.eval();
+    let mut rng = Rng::new(seed);
+    let w = World::with_cfg(seed, NetCfg { lat_min: MS, lat_max: 15 * MS, random_ties: true }, TraceLevel::Off);
+    let signer = SigningKey::from_bytes(&rng.array::<32>());
+    let salt: Option<Vec<u8>> = if rng.bool() { Some(rng.blob(1, 12)) } else { None };
+    let key = signer.verifying_key().to_bytes();
+    let target = crate::sha1::mutable_target(&key, salt.as_deref());
+    let n = 2 + rng.usize(9);
+    let ends: Vec<([u8; 20], SocketAddrV4)> = (0..n).map(|i| (rng.array(), SocketAddrV4::new(Ipv4Addr::new(53, 0, 0, 1 + i as u8), 6881))).collect();
+    let socks: Vec<SockId> = ends.iter().map(|e| w.raw(e.1)).collect();
+    // what each replica holds: Some(item) or a reply of another shape (1..=4) or silence (5)
+    let base_seq = *rng.pick(&[0i64, 1, 7, -3, i64::MAX - 2, 1000]);
+    let values: [&[u8]; 5] = [b"a", b"b", b"ab", b"", b"zz-top"];
+    let mut held: Vec<Option<MutableItem>> = vec![];
+    let mut shape: Vec<u8> = vec![];
+    for _ in 0..n {
+        match rng.usize(10) {
+            0 => { held.push(None); shape.push(1 + rng.usize(4) as u8) }
+            1 => { held.push(None); shape.push(5) }
+            _ => {
+                let seq = base_seq.saturating_add(*rng.pick(&[0i64, 0, 0, 1, 1, 2, -1]));
+                held.push(Some(MutableItem::new(&signer, values[rng.usize(values.len())], seq, salt.as_deref())));
+                shape.push(0)
+            }
+        }
+    }
+    let delays: Vec<u64> = (0..n).map(|_| *rng.pick(&[0u64, 0, 20 * MS, 60 * MS, 120 * MS, 200 * MS, 300 * MS])).collect();
+    let case = json!({"class":"lookup","seed":seed.to_string(),"replicas":n,"held": held.iter().zip(&shape).zip(&delays).map(|((h, s), d)| match h { Some(i) => json!({"seq": i.seq().to_string(), "v": crate::bencode::hex(i.value()), "delay_ms": d / MS}), None => json!({"other_shape": s, "delay_ms": d / MS}) }).collect::<Vec<_>>()});
+    {
+        let (ends2, socks2, held2, shape2, delays2) = (ends.clone(), socks.clone(), held.clone(), shape.clone(), delays.clone());
+        w.set_responder(Some(Box::new(move |w, sock, d| {
+            let Some(i) = socks2.iter().position(|s| *s == sock) else { return false };
+            let Some(q) = Krpc::parse(&d.bytes) else { return true };
+            if q.y != b'q' {
+                return true;
+            }
+            let mut rd = vec![("id", B::bytes(&ends2[i].0)), ("nodes", B::Bytes(nodes_bytes(&ends2)))];
+            let mut bytes = None;
+            if q.is_query("get") && q.target() == Some(target) {
+                rd.push(("token", B::bytes(b"tokn")));
+                match (&held2[i], shape2[i]) {
+                    (Some(item), _) => {
+                        rd.push(("v", B::bytes(item.value())));
+                        rd.push(("k", B::bytes(item.key())));
+                        rd.push(("sig", B::bytes(item.signature())));
+                        rd.push(("seq", B::Int(item.seq() as i128)));
+                    }
+                    (None, 1) => rd.push(("values", B::List(vec![B::Bytes(addr_bytes(&SocketAddrV4::new(Ipv4Addr::new(9, 9, 9, 9), 9))) ]))),
+                    (None, 2) => rd.push(("v", B::bytes(b"just a value"))),
+                    (None, 3) => {}
+                    (None, 4) => bytes = Some(error(&q.t, 203, "no").encode()),
+                    _ => return true,
+                }
+            }
+            let bytes = bytes.unwrap_or_else(|| response(&q.t, B::dict(rd), Some(&d.from), Some(&VERSION_RS6)).encode());
+            w.raw_send_delayed(sock, &bytes, d.from, delays2[i]);
+            true
+        })));
+    }
+    let boots: Vec<SocketAddrV4> = ends.iter().take(1 + rng.usize(n)).map(|e| e.1).collect();
+    let x = match w.spawn(NodeSpec::client(Ipv4Addr::new(53, 0, 9, 9), &boots)) {
+        Ok(x) => x,
+        Err(_) => { r.inconclusive("lookup scenario: node did not start"); return }
+    };
+    w.block_on(x.adht.bootstrapped(), 60 * SEC);
+    let genuine: Vec<&MutableItem> = held.iter().flatten().collect();
+    let want = oracle(&genuine);
+    // callers: the first one, then joiners after 30..450 ms (sync flavour on helper threads for a third of the worlds)
+    let sync = rng.chance(1, 3);
+    let mut starts = vec![0u64];
+    for _ in 0..rng.usize(3) {
+        starts.push((30 + rng.below(420)) * MS);
+    }
+    starts.sort();
+    let t0 = w.now();
+    let mut results: Vec<Option<Option<MutableItem>>> = vec![];
+    if sync {
+        let mut handles = vec![];
+        for st in &starts {
+            w.run_to(t0 + st);
+            let d = x.dht.clone();
+            let sl = salt.clone();
+            handles.push(std::thread::spawn(move || d.get_mutable_most_recent(&key, sl.as_deref())));
+            // let the call reach the actor
+            w.run_for(MS);
+        }
+        w.run_until(120 * SEC, |_| handles.iter().all(|h| h.is_finished()));
+        for h in handles {
+            results.push(if h.is_finished() { h.join().ok() } else { None });
+        }
+    } else {
+        use std::future::Future;
+        use std::pin::Pin;
+        let abs: Vec<u64> = starts.iter().map(|s| t0 + s).collect();
+        let a = x.adht.clone();
+        let sl = salt.clone();
+        results = super::net::staggered(&w, &abs, |_| { let a = a.clone(); let sl = sl.clone(); Box::pin(async move { a.get_mutable_most_recent(&key, sl.as_deref()).await }) as Pin<Box<dyn Future<Output = Option<MutableItem>>>> }, 120 * SEC);
+    }
+    let flavour = if sync { "sync" } else { "async" };
+    for (ci, res) in results.into_iter().enumerate() {
+        let who = if ci == 0 { "first-caller" } else { "joined-caller" };
+        r.count(&format!("lookup/{flavour}/{who}"));
+        let detail = json!({"caller": ci, "start_ms": starts[ci] / MS, "flavour": flavour});
+        match (res, &want) {
+            (None, _) => r.violation(&format!("lookup/{flavour}/did-not-complete"), "get_mutable_most_recent did not return", case.clone(), detail),
+            (Some(None), None) => {}
+            (Some(None), Some(_)) => r.violation(&format!("lookup/{flavour}/{who}/none-although-items-were-delivered"), "None although the lookup received genuine items", case.clone(), detail),
+            (Some(Some(_)), None) => r.violation(&format!("lookup/{flavour}/{who}/some-although-nothing-genuine"), "an item although no replica holds one", case.clone(), detail),
+            (Some(Some(g)), Some((seq, v))) => {
+                if g.seq() != *seq {
+                    r.violation(&format!("lookup/{flavour}/{who}/not-max-seq"), "returned an item whose seq is not the maximum over the genuine items the lookup received", case.clone(), json!({"returned_seq": g.seq().to_string(), "max_seq": seq.to_string(), "caller": detail}));
+                } else if g.value() != &v[..] {
+                    r.violation(&format!("lookup/{flavour}/{who}/tie-not-greatest-value"), "among the genuine items of the maximal seq the greatest value was not returned", case.clone(), json!({"returned": crate::bencode::hex(g.value()), "greatest": crate::bencode::hex(v), "caller": detail}));
+                }
+            }
+        }
+    }
+    let distinct: std::collections::HashSet<(i64, Vec<u8>)> = genuine.iter().map(|i| (i.seq(), i.value().to_vec())).collect();
+    if distinct.len() >= 2 {
+        r.nontrivial(mix(seed, w.order_hash()));
+        r.count("lookup_worlds_with_two_or_more_distinct_genuine_items");
+    }
+    if shape.iter().any(|s| (1..=4).contains(s)) {
+        r.count("lookup_worlds_with_a_reply_of_another_shape");
+    }
+    if shape.iter().any(|s| *s == 5) {
+        r.count("lookup_worlds_with_a_silent_replica");
+    }
+    if starts.len() > 1 {
+        r.count("lookup_worlds_with_joined_callers");
+    }
+    if w.stuck() {
+        r.inconclusive("scheduler watchdog fired");
+    }
+    drop(x);
+    w.shutdown();
+    for (thread, loc, msg) in crate::take_panics() {
+        r.violation(&format!("panic/{loc}"), &format!("thread {thread} panicked: {msg}"), case.clone(), json!({}));
+    }
+}
+
 pub fn run(a: &Args) -> Report {
     let mut r = Report::new("C16");
+    if let Some(path) = &a.replay {
+        let v: Value = serde_json::from_str(&std::fs::read_to_string(path).unwrap_or_default()).unwrap_or_default();
+        if v["case"]["class"] == "lookup" {
+            let seed = v["case"]["seed"].as_str().and_then(|s| s.parse().ok()).unwrap_or(1);
+            super::guarded(&mut r, v["case"].clone(), |r| lookup_scenario(r, seed));
+            return r;
+        }
+    }
     let signer = SigningKey::from_bytes(&[7u8; 32]);
     let key = signer.verifying_key().to_bytes();
     let salts: [Option<&[u8]>; 2] = [None, Some(b"salt")];
@@ -191,6 +351,13 @@ pub fn run(a: &Args) -> Report {
     }
     drop(sw);
     let _ = worker.join();
+    // end to end, in SimNet (after the scripted part: the environment is process-global)
+    let n_worlds = (if a.quick() { 1_600 } else { 32_000 }) / a.nshards.max(1);
+    for _ in 0..n_worlds {
+        let seed = rng.u64();
+        super::guarded(&mut r, json!({"class":"lookup","seed":seed.to_string()}), |r| lookup_scenario(r, seed));
+        r.count("lookup_worlds");
+    }
     r.notes.insert("exhaustive_bound".into(), json!(format!("all sequences of length 0..={max_len} over each 6-item alphabet (= every permutation of every multiset of up to {max_len} items)")));
     r
 }
